@@ -106,12 +106,13 @@ Definition chars_entry_ok (e : Z * list Z) : bool :=
   let c := b mod 128 in
   match s with
   | [] => (b =? 128) || (b =? odd_parity 127)
-  | [x] => (32 <=? c) && (c <=? 126) && (b =? odd_parity c) && (x =? basic_608 c)
+  | [x] => (32 <=? c) && (c <=? 127) && (b =? odd_parity c) && (x =? basic_608 c)
   | _ => false
   end.
 
+(* the solid block 0x7f may be mapped to the empty string (as pycaption does) or to U+2588 (what a 608 decoder shows) *)
 Theorem chars_table_domain : forall b s, In (b, s) scc_characters ->
-  (b = 128 /\ s = []) \/ (b = odd_parity 127 /\ s = []) \/ (exists c, 32 <= c <= 126 /\ b = odd_parity c /\ s = [basic_608 c]).
+  (b = 128 /\ s = []) \/ (b = odd_parity 127 /\ s = []) \/ (exists c, 32 <= c <= 127 /\ b = odd_parity c /\ s = [basic_608 c]).
 Proof.
   intros b s H.
   assert (E : chars_entry_ok (b, s) = true) by (revert H; apply all_in; vmr).
@@ -212,10 +213,14 @@ Definition ctrl_list : list Z := [w_rcl; w_bs; w_ru2; w_ru3; w_ru4; w_rdc; w_edm
 Theorem control_codes : w_rcl = ctrl_word 32 /\ w_bs = ctrl_word 33 /\ w_ru2 = ctrl_word 37 /\ w_ru3 = ctrl_word 38 /\
   w_ru4 = ctrl_word 39 /\ w_rdc = ctrl_word 41 /\ w_edm = ctrl_word 44 /\ w_cr = ctrl_word 45 /\ w_enm = ctrl_word 46 /\ w_eoc = ctrl_word 47
   /\ Forall (fun w => is_command w = true) [w_rcl; w_bs; w_ru2; w_ru3; w_ru4; w_rdc; w_edm; w_cr; w_enm; w_eoc]
-  /\ scc_cue_starting_commands = [w_ru2; w_ru3; w_ru4; w_rdc; w_rcl].
+  /\ (forall w, In w scc_cue_starting_commands <-> In w [w_ru2; w_ru3; w_ru4; w_rdc; w_rcl]).     (* as a SET *)
 Proof.
   repeat split; try vmr.
-  apply Forall_forall. apply (map_eq_pointwise is_command (fun _ => true)). vmr.
+  - apply Forall_forall. apply (map_eq_pointwise is_command (fun _ => true)). vmr.
+  - intros H. apply memz_In.
+    exact (all_in (fun x => memz x [w_ru2; w_ru3; w_ru4; w_rdc; w_rcl]) scc_cue_starting_commands ltac:(vmr) w H).
+  - intros H. apply memz_In.
+    exact (all_in (fun x => memz x scc_cue_starting_commands) [w_ru2; w_ru3; w_ru4; w_rdc; w_rcl] ltac:(vmr) w H).
 Qed.
 
 Definition no_char_pair (w : Z) : bool := negb (is_some (char_of (hi w)) && is_some (char_of (lo w))).
